@@ -19,6 +19,8 @@ Supported C subset (anything else: RealVCError -> the job is undecided, never pa
   [const] double|int|bool x [= e];   x = e;  x += e; x -= e; x *= e; x /= e;   if (c) {..} [else {..}|else if ..]
   expressions: numbers, identifiers, + - * /, unary -, !, && || ==> , comparisons, ?:, (double) casts,
   cm_sqrt(e), cm_pow(a, b) (uninterpreted, congruence only), __CPROVER_old(e) (in ensures).
+Integer-typed variables are mathematical numbers too (no truncation, no wrap-around): exact as long as the values
+they receive are integers in range; jobs name such inputs with intvars= so that the differential check samples integers.
 """
 import os
 import re
@@ -244,6 +246,9 @@ class SymExec:
         self.nsqrt = 0
         self.pows = []
         self.sqrts = []
+        self.locals = set()
+        self.outparams = set()
+        self.assigned = set()
         self.init = {}
 
     def fresh_input(self, name, sort='Real'):
@@ -374,6 +379,7 @@ class SymExec:
             return returned
         if k == 'decl':
             _, ty, name, init = s
+            self.locals.add(name)
             self.sort[name] = 'Bool' if ty in ('bool', '_Bool') else 'Real'
             if init is None:
                 sym = '%s!u%d' % (name, len(self.decls))
@@ -385,6 +391,7 @@ class SymExec:
             return returned
         if k == 'assign':
             _, name, e = s
+            self.assigned.add(name)
             if name not in self.env:
                 self.fresh_input(name)
             v = self.boolean(e, live) if self.sort.get(name) == 'Bool' else self.term(e, live)
@@ -546,6 +553,171 @@ def eval_real(txt):
         return None
 
 
+
+# ---------------------------------------------------------------------------------------------------------------
+# Differential check of the VC generator: the symbolic terms are evaluated numerically (Python floats) and compared
+# with the extracted C text compiled by gcc and run on the same random inputs. This tests realvc's parsing and
+# symbolic execution against the compiler's semantics on every run; it does not touch the contract.
+
+def _sexpr(txt):
+    toks = re.findall(r'\|[^|]*\||[()]|[^\s()]+', txt)
+    pos = [0]
+
+    def rd():
+        t = toks[pos[0]]
+        pos[0] += 1
+        if t == '(':
+            lst = []
+            while toks[pos[0]] != ')':
+                lst.append(rd())
+            pos[0] += 1
+            return lst
+        return t
+    return rd()
+
+
+class _Incomparable(Exception):
+    pass
+
+
+def _ev(node, val, defs, cache):
+    import math
+    if isinstance(node, str):
+        if node.startswith('|'):
+            name = node[1:-1]
+            if name in val:
+                return val[name]
+            if name in cache:
+                return cache[name]
+            if name in defs:
+                kind, args = defs[name]
+                a = [_ev(_sexpr(x), val, defs, cache) for x in args]
+                if kind == 'sqrt':
+                    if not a[0] >= 0:
+                        raise _Incomparable()
+                    r = math.sqrt(a[0])
+                else:
+                    try:
+                        r = math.pow(a[0], a[1])
+                    except (ValueError, OverflowError, ZeroDivisionError):
+                        raise _Incomparable()
+                cache[name] = r
+                return r
+            raise KeyError(name)
+        if node == 'true':
+            return True
+        if node == 'false':
+            return False
+        return float(node)
+    op = node[0]
+    if op == 'ite':
+        return _ev(node[2], val, defs, cache) if _ev(node[1], val, defs, cache) else _ev(node[3], val, defs, cache)
+    if op == 'and':
+        return all(_ev(x, val, defs, cache) for x in node[1:])
+    if op == 'or':
+        return any(_ev(x, val, defs, cache) for x in node[1:])
+    if op == 'not':
+        return not _ev(node[1], val, defs, cache)
+    if op == '=>':
+        return (not _ev(node[1], val, defs, cache)) or _ev(node[2], val, defs, cache)
+    a = [_ev(x, val, defs, cache) for x in node[1:]]
+    if op == '+':
+        return a[0] + a[1]
+    if op == '-':
+        return -a[0] if len(a) == 1 else a[0] - a[1]
+    if op == '*':
+        return a[0] * a[1]
+    if op == '/':
+        if a[1] == 0:
+            raise _Incomparable()
+        return a[0] / a[1]
+    if op == '<':
+        return a[0] < a[1]
+    if op == '<=':
+        return a[0] <= a[1]
+    if op == '>':
+        return a[0] > a[1]
+    if op == '>=':
+        return a[0] >= a[1]
+    if op == '=':
+        return a[0] == a[1]
+    raise RealVCError('differential evaluation: operator %r' % op)
+
+
+def differential_check(se, unit_c, fname, params, jd, incdirs, defines, samples=200, intvars=()):
+    """returns dict(cases=, compared=, what=) or dict(skipped=reason); raises RealVCError on a disagreement"""
+    import math
+    import random
+    pnames = []
+    for p in [x.strip() for x in params.split(',') if x.strip() and x.strip() != 'void']:
+        pnames.append(p.replace('*', ' ').split()[-1])
+    inputs = [n for n in se.init if se.sort.get(n, 'Real') == 'Real']
+    outputs = sorted(n for n in se.assigned if n not in se.locals and (n not in pnames or n in se.outparams) and se.sort.get(n, 'Real') == 'Real')
+    if not outputs:
+        return dict(skipped='the function assigns no non-local variable (lemma over the specification)')
+    glob = [n for n in inputs if n not in pnames]
+    drv = os.path.join(jd, 'diff_driver.c')
+    with open(drv, 'w') as f:
+        f.write('#include <math.h>\n#include <stdio.h>\n#include <stdlib.h>\n#define cm_sqrt sqrt\n#define cm_pow pow\n#define __CPROVER_requires(...)\n#define __CPROVER_ensures(...)\n#define __CPROVER_assigns(...)\n')
+        for n in sorted((set(glob) | set(outputs)) - set(pnames)):
+            f.write('double %s;\n' % n)
+        f.write('#include "%s"\n' % unit_c)
+        f.write('int main(int argc, char **argv) {\n  int k = 1;\n')
+        for n in glob:
+            f.write('  %s = atof(argv[k++]);\n' % n)
+        for n in pnames:
+            f.write('  double p_%s = atof(argv[k++]);\n' % n)
+        f.write('  %s(%s);\n' % (fname, ', '.join(('&p_' if n in se.outparams else 'p_') + n for n in pnames)))
+        for n in outputs:
+            f.write('  printf("%%.17g\\n", %s);\n' % (('p_' + n) if n in se.outparams else n))
+        f.write('  return 0;\n}\n')
+    exe = os.path.join(jd, 'diff_driver')
+    cmd = ['gcc', '-O0', '-w', '-DCM_NATIVE', '-DCM_REALVC'] + ['-I' + d for d in incdirs] + ['-D' + d for d in defines] + [drv, '-o', exe, '-lm']
+    p = subprocess.run(cmd, stdout=subprocess.PIPE, stderr=subprocess.PIPE)
+    if p.returncode != 0:
+        errs = [l for l in p.stderr.decode(errors='replace').split('\n') if 'error' in l]
+        return dict(skipped='extracted text does not compile stand-alone as C: ' + (errs[0] if errs else '?')[:240])
+    defs = {}
+    for (a, sname) in se.sqrts:
+        defs[sname] = ('sqrt', [a])
+    for (a, b, sname) in se.pows:
+        defs[sname] = ('pow', [a, b])
+    trees = dict((n, _sexpr(se.env[n])) for n in outputs)
+    rnd = random.Random(12345)
+    compared = 0
+    for case in range(samples):
+        vals = {}
+        for n in inputs:
+            v = rnd.choice([-1, 1]) * math.exp(rnd.uniform(-1.5, 1.5)) if rnd.random() < 0.85 else float(rnd.randint(-2, 3))
+            if n in intvars:
+                # feeds an integer-typed variable of the C text (integers are modelled as mathematical numbers:
+                # exact as long as the values ARE integers)
+                v = float(rnd.randint(0, 6))
+            vals[n] = v
+        args = ['%.17g' % vals[n] for n in glob] + ['%.17g' % vals[n] for n in pnames]
+        q = subprocess.run([exe] + args, stdout=subprocess.PIPE, stderr=subprocess.PIPE)
+        if q.returncode != 0:
+            continue
+        nat = [float(x) for x in q.stdout.decode().split()]
+        val = dict((n + '!0', vals[n]) for n in inputs)
+        cache = {}
+        for n, nv in zip(outputs, nat):
+            try:
+                sv = _ev(trees[n], val, defs, cache)
+            except (KeyError, _Incomparable, OverflowError):
+                sv = None  # uninitialised local, or an operation outside the reals (x/0, sqrt(<0), pow domain): not comparable
+            if sv is None or isinstance(sv, bool):
+                continue
+            if math.isnan(nv) or math.isinf(nv) or math.isnan(sv) or math.isinf(sv):
+                continue
+            compared += 1
+            if abs(sv - nv) > 1e-9 * (abs(sv) + abs(nv)) + 1e-300:
+                raise RealVCError('differential check: %s = %r natively but %r by symbolic execution, inputs %s' % (n, nv, sv, ' '.join('%s=%g' % kv for kv in sorted(vals.items()))))
+    if compared == 0:
+        return dict(skipped='no comparable output in %d random cases' % samples)
+    return dict(cases=samples, compared=compared, what='outputs %s of the gcc-compiled extracted text vs numeric evaluation of the symbolic terms' % ','.join(outputs))
+
+
 def run(job, unit_c, jd, incdirs):
     """same result shape as runner.run_job"""
     res = dict(job=job.name, enforce=job.enforce, replace=[], backend='realsmt(z3|cvc5|z3-new)', bounded=job.bounded, status='undecided', reason='',
@@ -556,10 +728,16 @@ def run(job, unit_c, jd, incdirs):
         params, req, ens, body = find_function(ctext, job.enforce)
         se = SymExec()
         for p in [x.strip() for x in params.split(',') if x.strip() and x.strip() != 'void']:
-            mm = re.match(r'^(?:const\s+)?(double|float|int|bool|_Bool|int_fast32_t|uint_fast32_t)\s+(\w+)$', p)
+            mm = re.match(r'^(?:const\s+)?(double|float|int|bool|_Bool|int_fast32_t|uint_fast32_t|uint_fast8_t|int_fast8_t)\s*(\*?)\s*(\w+)$', p)
             if not mm:
                 raise RealVCError('parameter %r is outside the supported subset' % p)
-            se.fresh_input(mm.group(2), 'Bool' if mm.group(1) in ('bool', '_Bool') else 'Real')
+            se.fresh_input(mm.group(3), 'Bool' if mm.group(1) in ('bool', '_Bool') else 'Real')
+            if mm.group(2):
+                # reference (output) parameter lowered to a pointer by the extractor: '(*x)' is the variable x
+                se.outparams.add(mm.group(3))
+                body = re.sub(r'\(\s*\*\s*%s\s*\)' % re.escape(mm.group(3)), mm.group(3), body)
+                req = [re.sub(r'\(\s*\*\s*%s\s*\)' % re.escape(mm.group(3)), mm.group(3), r) for r in req]
+                ens = [re.sub(r'\(\s*\*\s*%s\s*\)' % re.escape(mm.group(3)), mm.group(3), r) for r in ens]
         # requires are evaluated on the initial state; they may mention globals (free inputs)
         req_terms = []
         for r in req:
@@ -574,6 +752,7 @@ def run(job, unit_c, jd, incdirs):
         ndiv_before = len(se.divs)
         se.run(stmts)
         body_divs = se.divs[ndiv_before:]
+        res['differential'] = differential_check(se, unit_c, job.enforce, params, jd, incdirs, job.defines, intvars=[x for x in job.a.get('intvars', '').split(',') if x])
         ens_terms = []
         for r in ens:
             pr = Parser(tokenize(r))
